@@ -205,13 +205,21 @@ func (s *Server[StateT]) handleOpenFile(ctx *Context[StateT]) error {
 type readFileResponseWriter struct {
 	dataLength int32
 	upstream   io.Writer
+	headerErr  error
 }
 
-func (w *readFileResponseWriter) WriteHeader(length int32) { w.dataLength = length }
+func (w *readFileResponseWriter) WriteHeader(length int32) {
+	w.dataLength = length
+	w.headerErr = (&proto.Writer{Writer: w.upstream}).SendReadFileResultLen(length)
+}
 
 func (w *readFileResponseWriter) Write(p []byte) (n int, err error) {
 	if w.dataLength <= 0 {
 		return 0, fmt.Errorf("WriteHeader wasn't called")
+	}
+
+	if w.headerErr != nil {
+		return 0, w.headerErr
 	}
 
 	return w.upstream.Write(p)
